@@ -80,10 +80,18 @@ func (p propC11) Gen(r *simrt.Rand, idx int, tier string) any {
 		c = genSeqCase(r, seqProfile{prop: "C11", steps: [2]int{15, 45}, keys: [2]int{2, 3}, maxTx: 4, txWeight: 65, late: true, readback: "all"})
 	}
 	for i := range c.Ops {
-		if c.Ops[i].Key == "" && (c.Ops[i].K == "set" || c.Ops[i].K == "setr") {
+		if c.Ops[i].Key == "" && (c.Ops[i].K == "set" || c.Ops[i].K == "setr" || c.Ops[i].K == "create") {
 			// a write the server rejects while the client may still be uploading (more than the
 			// flow-control window for the larger sizes)
 			c.Ops[i].Size = []int{5, 3000, 70000, 300000, 2 << 20}[r.Intn(5)]
+			if c.Ops[i].K == "create" {
+				c.Ops[i].Writes = nil
+				for rest := c.Ops[i].Size; rest > 0; {
+					n := min(rest, 1+r.Intn(65536))
+					c.Ops[i].Writes = append(c.Ops[i].Writes, n)
+					rest -= n
+				}
+			}
 			continue
 		}
 		if c.Ops[i].Size > 70*1024 {
